@@ -11,6 +11,15 @@ T = {
  "C02": (True, "model_checking", "same explored graph, per-transition successor equality against the rules model, per-state board-consistency invariant, closures (fixpoints) of small material for unbounded histories",
          "Every transition of the explored graphs is executed by the real make_move and compared field by field (raw bitboards, side, rights, en-passant target) with the model successor; consistency invariant on every state; K+R v k and K+P v k explored to fixpoint so histories of any length inside them are covered.",
          "Trusts the rules model; closures that hit their state cap are reported as capped.", "3/C02"),
+ "C05": (True, "model_checking", "memoised unpruned minimax over the explored state graph (subject's own move generator, subject's own full-window quiescence at the leaves) vs find_best_move on a fresh Searcher for every state of depth-limited neighbourhoods, depth 1..3; instrumented fixed-depth searches to depth 4..5",
+         "For every state of the listed neighbourhoods (start position to 2 plies, endings to 2-3 plies, middlegame roots) a fresh Searcher is searched to depth 1, 2, 3 and compared with the reference value V(s,k) computed without pruning, ordering or caching: exact equality inside the window, won/lost beyond it, and the returned move must attain the value. Depth 4..5 single fixed-depth searches are compared only when the TT-cutoff counter shows no deeper entry was reused.",
+         "Leaf values are the subject's own quiescence values by the property's definition; states whose quiescence exceeds the node cap are excluded and counted.", "3/C05"),
+ "C06": (True, "fault_enumeration", "crash-point enumeration under the node clock: deadline at every node 0..T of a search (and pairs of deadlines), then a completed search on the same Searcher vs the reference value; repetition-stack length before/after",
+         "For 12 positions x depth 2,3 the deadline is placed at every node count of the uninterrupted search (T up to 6000 quick / 40000 thorough), on a fresh Searcher each time; the completed search that follows must report the reference minimax value and a move that attains it, and the game-history stack must have its original length. Small searches also get every pair of interruptions.",
+         "Equal maximum depth <= 3 for the interrupted and the completed search, so no deeper entry can serve the final iteration (DESIGN.md C06).", "3/C06"),
+ "C07": (True, "fault_enumeration", "same crash-point sweep: nodes visited beyond the deadline node <= 2048, including positions whose quiescence search explodes; watchdog turns a search that never answers into a verdict",
+         "Under the node clock the deadline falls at an exact node; the number of nodes visited beyond it is a deterministic count. Enumerated for every deadline of the C06 sweeps and for deadlines 0..600 (quick) / 0..3000 (thorough) at depth 1 and 2 on three valid positions whose quiescence tree has > 10^6 nodes.",
+         "Bounds work (nodes), not wall time; K = 2048 nodes is this harness's reading of 'small bounded amount'.", "3/C07"),
  "C10": (True, "exploration", "complete enumeration: 64 squares x every subset of each piece's rays x off-ray fillings; all leaper squares; all 64x63 ordered square pairs",
          "The finite space that determines the tables is enumerated completely (every on-ray blocker subset, edges included, with four fillings of the remaining squares; all pairs for the segment/line tables) and compared with a ray walk / geometry. exhaustive=true.",
          "Off-ray occupancy is represented by four fillings rather than all 2^50 (the code masks occupancy with the ray mask before indexing; a change that drops the mask is caught by the 'full' and checkerboard fillings).", "3/C10"),
